@@ -6,6 +6,10 @@ props = [json.loads(l) for l in open(os.path.join(V, "properties.jsonl"))]
 
 EVAL_NOTE = "trusted: TLC; the renderer's canonical layout and path->line map; H2 hook events (emitted after each VM state change in the single evaluator goroutine); program families are bounded (sizes in the evidence)"
 CHECKS = {
+ "C13": dict(
+   technique="TLA+ literal reader state machine and canonical writer (ZnStr) with the round-trip invariant model-checked by TLC; TLC-enumerated literals replayed through zh.NextToken and Interpreter.Execute",
+   level="TLC enumerates every text of length <= 3 over the 29-symbol critical alphabet x 3 openers x 2 writer styles (and <= 2 x all 5 openers; thorough also <= 5 over 10 symbols), writes it as a literal with the spec's Encode and checks on the spec that the reader state machine returns exactly the text, closes at the last character and never meets an undocumented back-tick sequence. The same literals - plus every raw body <= 4 over 16 symbols, <= 3 over all 29, <= 5 over 10 and every `U+hex` escape with <= 8 hex digits - are read by the real lexer: value, closing position, token type and 'unterminated => syntax error 27' must agree (quick: seeded 200000 literals x 2 concrete renderings); literals of the “ ” / 「 」 families also run end to end.",
+   note="trusted: TLC; one concrete character per symbol (several for 'other'); where the manual leaves a failed back-tick escape ambiguous the spec flags the vector and only termination is checked", ref="5 C13"),
  "C04": dict(
    technique="TLA+ scanner state machine (ZnLex), numeric-form DFA with W-method suite (ZnNum) and interval-table normal form (ZnIdRange) model-checked by TLC; TLC-enumerated strings replayed through zh.NextToken and exec.MatchIDType; recorded IdInRange answers for all code points validated by TLC",
    level="Numeric: TLC enumerates every string of length <= 5 (thorough 6) over the 11 character classes plus the W-method suite P.Sigma^{<=3}.W of the 13-state minimal DFA (complete for recognisers with up to two extra states; W and the access strings are verified by TLC) - 336k distinct strings, each classified number/name/reject and, for numbers, compared bit-exactly with the correctly rounded double of the decimal the spec denotes. Tokenisation: every string <= 3 (thorough 4) over a 27-symbol alphabet and <= 4-6 over four reduced alphabets is scanned by the spec machine (progress, span, coverage and determinism invariants) and the token kinds and spans must equal zh.NextToken's. Alphabet: IdInRange is asked for all 0x110000 code points; TLC checks the run-length encoding equals the normal form of the table in id_range.go.",
